@@ -466,7 +466,22 @@ def k3(ctx, facts, tables, disp, cfg):
                 continue
             inner = strip_refs(v[2][0]) if (v[0] == "agg" and v[1].get("variant") == "Ok" and v[2]) else None
             isconv = inner is not None and inner[0] == "call" and inner[1] and (inner[1].get("key") == conv.key or conv.key in {y.get("key") for y in (inner[1].get("fwd") or []) if isinstance(y, dict)})
-            if isconv and inner[2] and strip_refs(inner[2][0])[0] == "payload" and ("::evaluate@" in strip_refs(inner[2][0])[1] or "evaluate" in strip_refs(inner[2][0])[1]):
+            def _eval_payload(y):
+                y = strip_refs(y)
+                return y[0] == "payload" and "evaluate" in str(y[1])
+
+            def _inline_faithful(x):
+                # the faithful conversion written out at the call site: the New payload as it is, or a clone of the Raw one
+                x = strip_refs(x)
+                cloned = False
+                if x[0] == "call" and x[1] and x[1]["path"] == "<serde_json::Value as std::clone::Clone>::clone" and x[2]:
+                    cloned, x = True, strip_refs(x[2][0])
+                if x[0] == "field" and x[2] == 0 and isinstance(x[1], tuple) and x[1][0] == "downcast" and _eval_payload(x[1][1]):
+                    return (x[1][2] == "New" and not cloned) or (x[1][2] == "Raw" and cloned)
+                return False
+            if isconv and inner[2] and _eval_payload(inner[2][0]):
+                good += 1
+            elif inner is not None and _inline_faithful(inner):
                 good += 1
             else:
                 other.append(show_expr(v)[:80])
